@@ -398,7 +398,13 @@ func (v *SnapshotValidator) AddChunk(data []byte, chunkID uint64) bool {
 			return false
 		}
 		var headerRec pb.SnapshotHeader
-		pb.MustUnmarshal(&headerRec, header)
+		if err := headerRec.Unmarshal(header); err != nil {
+			// headers written by SnapshotWriter have no crc32 value after them, so
+			// a corrupted header can reach this point. reject the chunk rather
+			// than taking the receiving process down
+			plog.Errorf("failed to unmarshal header, %v", err)
+			return false
+		}
 		v.v, ok = getVersionedValidator(headerRec)
 		if !ok {
 			return false
